@@ -245,6 +245,13 @@ Proof. induction l as [|y r IH]; cbn [map map_res to_sv bind]; [reflexivity|rewr
 Lemma map_res_to_sv_PInt l : map_res to_sv (map PInt l) = PyLite.Ok (map VInt l).
 Proof. apply (map_res_to_sv_ints (fun z => z)). Qed.
 
+(** no float among the arguments: a refused [pack] is [struct.error] *)
+Lemma no_pdy_ints {B} (f : B -> Z) l : existsb is_pdy (map (fun y => PInt (f y)) l) = false.
+Proof. induction l as [|y r IH]; cbn [map existsb is_pdy orb]; [reflexivity|exact IH]. Qed.
+
+Lemma no_pdy_PInt l : existsb is_pdy (map PInt l) = false.
+Proof. apply (no_pdy_ints (fun z => z)). Qed.
+
 (** * comprehension over a list whose elements satisfy a predicate *)
 Lemma comp_loop_map_Forall {B} (D : B -> Prop) (g : B -> pv) (h : B -> pv) P cf e1 n elt :
   (forall y, D y -> (do (v, _) <- eval P cf ((n, g y) :: e1) elt; PyLite.Ok v) = PyLite.Ok (h y)) ->
